@@ -172,6 +172,7 @@ def templates(pyver, tier, rng=None):
         add("future-" + fut, src)
 
     # ---- constants
+    add("const-huge-hex-literal", "x = 0x" + "f" * 4000 + "\ny = -0x7" + "0" * 4200 + "\nz = 0b" + "10" * 9000 + "\n")
     add("const-kinds", "x = [0.0, -0.0, 1, True, 1.0, 'a', b'a', 1e999, -1e999, 1e999-1e999, 2**100, -2**63, ..., None, 1j, -0j, (1, (2.0, (True,))), '\\ud800', '\\U0001f600']\n")
     add("const-nan-fold", "x = 1e999 - 1e999\ny = (1e999 - 1e999, -(1e999 - 1e999))\nz = 1e999 * 0\nw = x in {1e999-1e999, 2}\n")
     add("const-zero-family", "a = (0.0, -0.0, 0, False, 0j, -0j, complex(0, -0.0))\nb = 0.0\nc = -0.0\nd = 0\ne = False\nf = [0.0, -0.0, 0.0, -0.0]\n")
